@@ -1,5 +1,6 @@
 import PrysmVerif.Generated.C07
 import PrysmVerif.Lemmas.C07Field
+import PrysmVerif.Lemmas.C07Gen
 import PrysmVerif.Lemmas.C07Spec
 import PrysmVerif.Lemmas.C07Jacobi
 import PrysmVerif.Lemmas.C07Hermite
@@ -38,206 +39,71 @@ open Model.C07 C07L Polynomial
 section translated
 variable {K : Type} [Field K] [DecidableEq K] [CharZero K]
 
+/-! (the proofs of the next nine live in `Lemmas/C07Gen.lean`, shared with `Props/C08.lean`) -/
 /-- translated `recurrence_abc`, general branch, is the hand model's coefficient triple (all `n α β`) -/
 theorem gen_abc_general (n a b : K) (h : ¬ (n = 0 ∧ (a + b = 0 ∨ a + b = -1))) :
-    Generated.C07.abc n a b = abcK n a b := by
-  simp only [Generated.C07.abc, ofInt_eq, Int.cast_zero, Int.reduceNeg, Int.cast_neg, Int.cast_one, if_neg h]
-  try simp [abcK, pow_two]
+    Generated.C07.abc n a b = abcK n a b := C07L.gen_abc_general n a b h
 
 /-- translated `recurrence_abc`, `n = 0 ∧ α+β ∈ {0,−1}` branch, is the model's special triple -/
 theorem gen_abc_special (a b : K) (h : a + b = 0 ∨ a + b = -1) :
-    Generated.C07.abc 0 a b = abc0 a b := by
-  rcases h with h | h <;> simp [Generated.C07.abc, abc0, h]
+    Generated.C07.abc 0 a b = abc0 a b := C07L.gen_abc_special a b h
 
 /-- for every order `n+1 ≥ 1` the translated coefficients are the model's `abc (n+1)` -/
-theorem gen_abc_nat (n : ℕ) (a b : K) : Generated.C07.abc ((n:K) + 1) a b = abc (n+1) a b := by
-  rw [gen_abc_general]
-  · simp [abc]
-  · rintro ⟨h, _⟩
-    exact Nat.cast_add_one_ne_zero n h
+theorem gen_abc_nat (n : ℕ) (a b : K) : Generated.C07.abc ((n:K) + 1) a b = abc (n+1) a b := C07L.gen_abc_nat n a b
 
 /-- the translated body of `jacobi` (loop included) computes the model's `jacobi n α β x`, every `n` -/
-theorem gen_jacobi (n : ℕ) (a b x : K) : Generated.C07.jacobi (n : ℤ) a b x = jacobi n a b x := by
-  first
-  | (show Model.C07.jacobi _ _ _ _ = _; simp)
-  | (
-      match n with
-      | 0 => simp [Generated.C07.jacobi, jacobi_zero]
-      | 1 => simp [Generated.C07.jacobi, jacobi_one, jacP1]
-      | n+2 =>
-        have h0 : ¬ (((n + 2 : ℕ) : ℤ) = 0) := by omega
-        have h1 : ¬ (((n + 2 : ℕ) : ℤ) = 1) := by omega
-        have e1 : Generated.C07.abc (1:K) a b = abc 1 a b := by simpa using gen_abc_nat 0 a b
-        have P2 : ((Generated.C07.abc (1:K) a b).1 * x + (Generated.C07.abc (1:K) a b).2.1) * (a + 1 + (a + b + 2) * ((x - 1) / 2))
-            - (Generated.C07.abc (1:K) a b).2.2 = jacobi 2 a b x := by
-          rw [e1, jacobi_succ_succ, jacobi_one, jacobi_zero]; simp [jacStep, jacP1]
-        unfold Generated.C07.jacobi
-        simp only [if_neg h0, if_neg h1, ofInt_eq, Int.cast_one, Int.cast_ofNat, Int.cast_zero]
-        split
-        · rename_i h
-          have : n = 0 := by omega
-          subst this
-          exact P2
-        · rw [show ((n+2:ℕ):ℤ) + 1 = 3 + (n:ℕ) by push_cast; ring]
-          refine (forRange_induct (fun k (s : K × K × K × K × K × K) => s.2.1 = jacobi (k+1) a b x ∧ s.2.2.2.2.2 = jacobi (k+2) a b x)
-            3 _ _ ?_ ?_ n).2
-          · exact ⟨by simp [jacobi_one, jacP1], P2⟩
-          · rintro k s ⟨hs1, hs2⟩
-            refine ⟨hs2, ?_⟩
-            simp only [hs1, hs2]
-            have : (((3 + (k:ℤ) : ℤ) : K) - 1) = ((k + 1 : ℕ) : K) + 1 := by push_cast; ring
-            rw [this, gen_abc_nat, jacobi_succ_succ (k+1)]
-            simp [jacStep])
+theorem gen_jacobi (n : ℕ) (a b x : K) : Generated.C07.jacobi (n : ℤ) a b x = jacobi n a b x := C07L.gen_jacobi n a b x
 
 /-- the translated body of `hermite_He` (loop included) computes the model's `hermiteHe n x`, every `n` -/
-theorem gen_hermiteHe (n : ℕ) (x : K) : Generated.C07.hermiteHe (n : ℤ) x = hermiteHe n x := by
-  first
-  | (show Model.C07.hermiteHe _ _ = _; simp)
-  | (
-      match n with
-      | 0 => simp [Generated.C07.hermiteHe, hermiteHe_zero]
-      | 1 => simp [Generated.C07.hermiteHe, hermiteHe_one]
-      | n+2 =>
-        have h0 : ¬ (((n + 2 : ℕ) : ℤ) = 0) := by omega
-        have h1 : ¬ (((n + 2 : ℕ) : ℤ) = 1) := by omega
-        have P2 : x * x - 1 = hermiteHe 2 x := by rw [hermiteHe_succ_succ, hermiteHe_one, hermiteHe_zero]; simp
-        unfold Generated.C07.hermiteHe
-        simp only [if_neg h0, if_neg h1, ofInt_eq, Int.cast_one, Int.cast_ofNat, Int.cast_zero]
-        split
-        · rename_i h
-          have : n = 0 := by omega
-          subst this
-          exact P2
-        · rename_i h
-          obtain ⟨m, rfl⟩ : ∃ m, n = m + 1 := ⟨n - 1, by omega⟩
-          rw [show ((m+1+2:ℕ):ℤ) + 1 = 3 + ((m+1 : ℕ):ℤ) by push_cast; ring]
-          refine (forRange_induct (fun k (s : K × K × K) => s.2.1 = hermiteHe (k+1) x ∧ s.2.2 = hermiteHe (k+2) x
-              ∧ (1 ≤ k → s.1 = hermiteHe (k+2) x)) 3 _ _ ?_ ?_ (m+1)).2.2 (by omega)
-          · exact ⟨by simp [hermiteHe_one], P2, by omega⟩
-          · rintro k s ⟨hs1, hs2, -⟩
-            have e : x * s.2.2 - (((3 + (k:ℤ) : ℤ) : K) - 1) * s.2.1 = hermiteHe (k+3) x := by
-              rw [hs1, hs2, hermiteHe_succ_succ (k+1)]; push_cast; ring
-            exact ⟨hs2, e, fun _ => e⟩)
+theorem gen_hermiteHe (n : ℕ) (x : K) : Generated.C07.hermiteHe (n : ℤ) x = hermiteHe n x := C07L.gen_hermiteHe n x
 
 /-- the translated body of `hermite_H` (loop included) computes the model's `hermiteH n x`, every `n` -/
-theorem gen_hermiteH (n : ℕ) (x : K) : Generated.C07.hermiteH (n : ℤ) x = hermiteH n x := by
-  first
-  | (show Model.C07.hermiteH _ _ = _; simp)
-  | (
-      match n with
-      | 0 => simp [Generated.C07.hermiteH, hermiteH_zero]
-      | 1 => simp [Generated.C07.hermiteH, hermiteH_one]
-      | n+2 =>
-        have h0 : ¬ (((n + 2 : ℕ) : ℤ) = 0) := by omega
-        have h1 : ¬ (((n + 2 : ℕ) : ℤ) = 1) := by omega
-        have P2 : 4 * (x * x) - 2 = hermiteH 2 x := by
-          rw [hermiteH_succ_succ, hermiteH_one, hermiteH_zero]; simp; ring
-        unfold Generated.C07.hermiteH
-        simp only [if_neg h0, if_neg h1, ofInt_eq, Int.cast_one, Int.cast_ofNat, Int.cast_zero]
-        split
-        · rename_i h
-          have : n = 0 := by omega
-          subst this
-          exact P2
-        · rename_i h
-          obtain ⟨m, rfl⟩ : ∃ m, n = m + 1 := ⟨n - 1, by omega⟩
-          rw [show ((m+1+2:ℕ):ℤ) + 1 = 3 + ((m+1 : ℕ):ℤ) by push_cast; ring]
-          refine (forRange_induct (fun k (s : K × K × K) => s.2.1 = hermiteH (k+1) x ∧ s.2.2 = hermiteH (k+2) x
-              ∧ (1 ≤ k → s.1 = hermiteH (k+2) x)) 3 _ _ ?_ ?_ (m+1)).2.2 (by omega)
-          · exact ⟨by simp [hermiteH_one], P2, by omega⟩
-          · rintro k s ⟨hs1, hs2, -⟩
-            have e : 2 * x * s.2.2 - 2 * (((3 + (k:ℤ) : ℤ) : K) - 1) * s.2.1 = hermiteH (k+3) x := by
-              rw [hs1, hs2, hermiteH_succ_succ (k+1)]; push_cast; ring
-            exact ⟨hs2, e, fun _ => e⟩)
+theorem gen_hermiteH (n : ℕ) (x : K) : Generated.C07.hermiteH (n : ℤ) x = hermiteH n x := C07L.gen_hermiteH n x
 
 /-- the translated body of `laguerre` (loop included) computes the model's `laguerre n α x`, every `n` -/
-theorem gen_laguerre (n : ℕ) (al x : K) : Generated.C07.laguerre (n : ℤ) al x = laguerre n al x := by
-  first
-  | (show Model.C07.laguerre _ _ _ = _; simp)
-  | (
-      match n with
-      | 0 => simp [Generated.C07.laguerre, laguerre_zero]
-      | 1 => simp [Generated.C07.laguerre, laguerre_one]
-      | n+2 =>
-        have h0 : ¬ (((n + 2 : ℕ) : ℤ) = 0) := by omega
-        have h1 : ¬ (((n + 2 : ℕ) : ℤ) = 1) := by omega
-        have P2 : (1:K) / 2 * ((al + 3 - x) * (al + 1 - x) - (al + 1) * 1) = laguerre 2 al x := by
-          rw [laguerre_succ_succ, laguerre_one, laguerre_zero]; simp; ring
-        unfold Generated.C07.laguerre
-        simp only [if_neg h0, if_neg h1, ofInt_eq, ofFrac_eq, Int.cast_one, Int.cast_ofNat, Int.cast_zero, Nat.cast_ofNat]
-        split
-        · rename_i h
-          have : n = 0 := by omega
-          subst this
-          exact P2
-        · rw [show ((n+2:ℕ):ℤ) + 1 = 3 + (n:ℕ) by push_cast; ring]
-          refine (forRange_induct (fun k (s : K × K × K × K × K × K) => s.2.2.2.1 = laguerre (k+2) al x
-              ∧ s.2.2.2.2.1 = laguerre (k+2) al x ∧ s.2.2.2.2.2 = laguerre (k+1) al x) 3 _ _ ?_ ?_ n).1
-          · exact ⟨P2, P2, by simp [laguerre_one]⟩
-          · rintro k s ⟨-, hs2, hs3⟩
-            have e : 1 / ((((3 + (k:ℤ) : ℤ) : K) - 1) + 1) * ((al + 2 * (((3 + (k:ℤ) : ℤ) : K) - 1) + 1 - x) * s.2.2.2.2.1
-                - (al + (((3 + (k:ℤ) : ℤ) : K) - 1)) * s.2.2.2.2.2) = laguerre (k+3) al x := by
-              rw [hs2, hs3, laguerre_succ_succ (k+1)]; push_cast; ring
-            exact ⟨e, e, hs2⟩)
+theorem gen_laguerre (n : ℕ) (al x : K) : Generated.C07.laguerre (n : ℤ) al x = laguerre n al x := C07L.gen_laguerre n al x
 
 /-- the translated body of `dickson1` (loop included) computes the model's `dickson1 n a x`, every `n` -/
-theorem gen_dickson1 (n : ℕ) (al x : K) : Generated.C07.dickson1 (n : ℤ) al x = dickson1 n al x := by
-  first
-  | (show Model.C07.dickson1 _ _ _ = _; simp)
-  | (
-      match n with
-      | 0 => simp [Generated.C07.dickson1, dickson1, dickPair]
-      | 1 => simp [Generated.C07.dickson1, dickson1, dickPair]
-      | n+2 =>
-        have h0 : ¬ (((n + 2 : ℕ) : ℤ) = 0) := by omega
-        have h1 : ¬ (((n + 2 : ℕ) : ℤ) = 1) := by omega
-        unfold Generated.C07.dickson1
-        simp only [if_neg h0, if_neg h1, ofInt_eq, Int.cast_one, Int.cast_ofNat, Int.cast_zero]
-        rw [show ((n+2:ℕ):ℤ) + 1 = 2 + ((n+1:ℕ):ℤ) by push_cast; ring]
-        refine (forRange_induct (fun k (s : K × K × K) => s.2.1 = dickson1 (k+1) al x ∧ s.2.2 = dickson1 k al x
-            ∧ (1 ≤ k → s.1 = dickson1 (k+1) al x)) 2 _ _ ?_ ?_ (n+1)).2.2 (by omega)
-        · exact ⟨by simp [dickson1, dickPair], by simp [dickson1, dickPair], by omega⟩
-        · rintro k s ⟨hs1, hs2, -⟩
-          have e : x * s.2.1 - al * s.2.2 = dickson1 (k+2) al x := by
-            rw [hs1, hs2]; simp only [dickson1]; rw [dickPair_succ_succ]
-          exact ⟨e, hs1, fun _ => e⟩)
+theorem gen_dickson1 (n : ℕ) (al x : K) : Generated.C07.dickson1 (n : ℤ) al x = dickson1 n al x := C07L.gen_dickson1 n al x
 
 /-- the translated body of `dickson2` (loop included) computes the model's `dickson2 n a x`, every `n` -/
-theorem gen_dickson2 (n : ℕ) (al x : K) : Generated.C07.dickson2 (n : ℤ) al x = dickson2 n al x := by
-  first
-  | (show Model.C07.dickson2 _ _ _ = _; simp)
-  | (
-      match n with
-      | 0 => simp [Generated.C07.dickson2, dickson2, dickPair]
-      | 1 => simp [Generated.C07.dickson2, dickson2, dickPair]
-      | n+2 =>
-        have h0 : ¬ (((n + 2 : ℕ) : ℤ) = 0) := by omega
-        have h1 : ¬ (((n + 2 : ℕ) : ℤ) = 1) := by omega
-        unfold Generated.C07.dickson2
-        simp only [if_neg h0, if_neg h1, ofInt_eq, Int.cast_one, Int.cast_ofNat, Int.cast_zero]
-        rw [show ((n+2:ℕ):ℤ) + 1 = 2 + ((n+1:ℕ):ℤ) by push_cast; ring]
-        refine (forRange_induct (fun k (s : K × K × K) => s.2.1 = dickson2 (k+1) al x ∧ s.2.2 = dickson2 k al x
-            ∧ (1 ≤ k → s.1 = dickson2 (k+1) al x)) 2 _ _ ?_ ?_ (n+1)).2.2 (by omega)
-        · exact ⟨by simp [dickson2, dickPair], by simp [dickson2, dickPair], by omega⟩
-        · rintro k s ⟨hs1, hs2, -⟩
-          have e : x * s.2.1 - al * s.2.2 = dickson2 (k+2) al x := by
-            rw [hs1, hs2]; simp only [dickson2]; rw [dickPair_succ_succ]
-          exact ⟨e, hs1, fun _ => e⟩)
+theorem gen_dickson2 (n : ℕ) (al x : K) : Generated.C07.dickson2 (n : ℤ) al x = dickson2 n al x := C07L.gen_dickson2 n al x
 
-/-- the model's `f_n, g_n, h_n` satisfy the recursions written in `f_qbfs`, `g_qbfs`, `h_qbfs` -/
-theorem gen_qbfs_fgh (sqrt : K → K) (k : ℕ) (f : K) :
-    qbfsF sqrt 0 = Generated.C07.qbfsF0 sqrt ∧ qbfsF sqrt 1 = Generated.C07.qbfsF1 sqrt
-    ∧ qbfsG sqrt 0 = Generated.C07.qbfsG0
-    ∧ qbfsH k f = Generated.C07.qbfsHBody (k:ℤ) f
-    ∧ qbfsG sqrt (k+1) = Generated.C07.qbfsGBody (qbfsG sqrt k) (qbfsH k (qbfsF sqrt k)) (qbfsF sqrt (k+1))
-    ∧ qbfsF sqrt (k+2) = Generated.C07.qbfsFBody sqrt ((k+2 : ℕ) : ℤ) (qbfsG sqrt (k+1)) (qbfsH k (qbfsF sqrt k)) := by
-  refine ⟨?_, ?_, ?_, ?_, ?_, ?_⟩
-  · simp [qbfsF, qbfsFG, Generated.C07.qbfsF0]
-  · simp [qbfsF, qbfsFG, Generated.C07.qbfsF1]
-  · simp [qbfsG, qbfsFG, Generated.C07.qbfsG0]
-  · first | (simp [qbfsH, Generated.C07.qbfsHBody]; ring) | simp [qbfsH, Generated.C07.qbfsHBody]
-  · simp [qbfsG, qbfsF, qbfsFG, Generated.C07.qbfsGBody]
-  · first | (simp [qbfsG, qbfsF, qbfsFG, Generated.C07.qbfsFBody]; congr 1; ring) | (simp [qbfsG, qbfsF, qbfsFG, Generated.C07.qbfsFBody]; try ring_nf)
+/-- the bodies of `f_qbfs`, `g_qbfs`, `h_qbfs` (index plumbing included; recursive calls read as the model's functions) return
+    the model's `f_k`, `g_k`, `h_k` for every `k` -/
+theorem gen_qbfs_fgh (sqrt : K → K) (k : ℕ) :
+    Generated.C07.qbfsFBody sqrt (k:ℤ) = qbfsF sqrt k
+    ∧ Generated.C07.qbfsGBody sqrt (k:ℤ) = qbfsG sqrt k
+    ∧ Generated.C07.qbfsHBody sqrt (k:ℤ) = qbfsH k (qbfsF sqrt k) := by
+  refine ⟨?_, ?_, ?_⟩
+  · first
+    | (show Model.C07.qbfsFi _ _ = _; simp [qbfsFi])
+    | (match k with
+       | 0 => simp [Generated.C07.qbfsFBody, qbfsF, qbfsFG]
+       | 1 => simp [Generated.C07.qbfsFBody, qbfsF, qbfsFG]
+       | k+2 =>
+         have h0 : ¬ (((k + 2 : ℕ) : ℤ) = 0) := by omega
+         have h1 : ¬ (((k + 2 : ℕ) : ℤ) = 1) := by omega
+         have e1 : (((k + 2 : ℕ) : ℤ) - 1).toNat = k + 1 := by omega
+         have e2 : (((k + 2 : ℕ) : ℤ) - 2).toNat = k := by omega
+         simp only [Generated.C07.qbfsFBody, if_neg h0, if_neg h1, qbfsGi, qbfsHi, e1, e2, npow_eq, ofInt_eq]
+         simp only [qbfsF, qbfsG, qbfsFG, nat_eq]
+         congr 1
+         push_cast
+         ring)
+  · first
+    | (show Model.C07.qbfsGi _ _ = _; simp [qbfsGi])
+    | (match k with
+       | 0 => simp [Generated.C07.qbfsGBody, qbfsG, qbfsFG]
+       | k+1 =>
+         have h0 : ¬ (((k + 1 : ℕ) : ℤ) = 0) := by omega
+         have e1 : (((k + 1 : ℕ) : ℤ) - 1).toNat = k := by omega
+         have e2 : (((k + 1 : ℕ) : ℤ)).toNat = k + 1 := by omega
+         simp only [Generated.C07.qbfsGBody, if_neg h0, qbfsGi, qbfsHi, qbfsFi, e1, e2, ofInt_eq]
+         simp [qbfsF, qbfsG, qbfsFG])
+  · first
+    | (show Model.C07.qbfsHi _ _ = _; simp [qbfsHi])
+    | (simp [Generated.C07.qbfsHBody, qbfsH, qbfsFi]; ring)
 
 /-- one step of the model's coupled `(P, Q)` recurrence for Qbfs, written out -/
 theorem qbfsPQ_succ (sqrt : K → K) (rho : K) (n : ℕ) :
@@ -265,12 +131,13 @@ theorem gen_qbfs (sqrt : K → K) (n : ℕ) (x : K) : Generated.C07.qbfs sqrt (n
         rw [show qbfs sqrt (n+2) x = (qbfsPQ sqrt (x*x) (n+1)).2.2.2 * (x*x*(1-x*x)) from by
           simp [qbfs, qbfsPQ_succ]]
         congr 1
-        · refine (forRange_induct (fun k (s : K × K × K × K × K × K × K × K × K) =>
-              s.2.1 = (qbfsPQ sqrt (x*x) k).1 ∧ s.2.2.1 = (qbfsPQ sqrt (x*x) k).2.1
-              ∧ s.2.2.2.2.2.2.2.1 = (qbfsPQ sqrt (x*x) k).2.2.1 ∧ s.2.2.2.2.2.2.2.2 = (qbfsPQ sqrt (x*x) k).2.2.2
-              ∧ (1 ≤ k → s.2.2.2.2.2.2.1 = (qbfsPQ sqrt (x*x) k).2.2.2)) 2 _ _ ?_ ?_ (n+1)).2.2.2.2 (by omega)
+        · refine (forRange_induct (fun k s =>
+              Generated.C07.qbfs_st_Pnm2 s = (qbfsPQ sqrt (x*x) k).1 ∧ Generated.C07.qbfs_st_Pnm1 s = (qbfsPQ sqrt (x*x) k).2.1
+              ∧ Generated.C07.qbfs_st_Qnm2 s = (qbfsPQ sqrt (x*x) k).2.2.1 ∧ Generated.C07.qbfs_st_Qnm1 s = (qbfsPQ sqrt (x*x) k).2.2.2
+              ∧ (1 ≤ k → Generated.C07.qbfs_st_Qn s = (qbfsPQ sqrt (x*x) k).2.2.2)) 2 _ _ ?_ ?_ (n+1)).2.2.2.2 (by omega)
           · simp [qbfsPQ, pow_two]
           · rintro k s ⟨hs1, hs2, hs3, hs4, -⟩
+            dsimp only [Generated.C07.qbfs_st_Pn, Generated.C07.qbfs_st_Pnm1, Generated.C07.qbfs_st_Pnm2, Generated.C07.qbfs_st_Qn, Generated.C07.qbfs_st_Qnm1, Generated.C07.qbfs_st_Qnm2] at hs1 hs2 hs3 hs4 ⊢
             have eg : qbfsGi sqrt (2 + (k:ℤ) - 1) = qbfsG sqrt (k+1) := by
               simp only [qbfsGi]; congr 1; omega
             have eh : qbfsHi sqrt (2 + (k:ℤ) - 2) = qbfsH k (qbfsF sqrt k) := by
@@ -282,48 +149,59 @@ theorem gen_qbfs (sqrt : K → K) (n : ℕ) (x : K) : Generated.C07.qbfs sqrt (n
             exact ⟨trivial, trivial, trivial, trivial, fun _ => trivial⟩
         · ring)
 
-/-- `cheby1..4` wire `jacobi` with parameters `(∓½, ∓½)`, evaluate the normaliser at `x = 1` with the same
-    parameters, and use numerators `1, n+1, 1, 2n+1` -/
-theorem gen_cheby_params (n : ℕ) :
-    (Generated.C07.cheby1Params (n:ℤ) : K × K × K × K × K × K) = (-1/2, -1/2, -1/2, -1/2, 1, 1)
-    ∧ (Generated.C07.cheby2Params (n:ℤ) : K × K × K × K × K × K) = (1/2, 1/2, 1/2, 1/2, 1, (n:K) + 1)
-    ∧ (Generated.C07.cheby3Params (n:ℤ) : K × K × K × K × K × K) = (-1/2, 1/2, -1/2, 1/2, 1, 1)
-    ∧ (Generated.C07.cheby4Params (n:ℤ) : K × K × K × K × K × K) = (1/2, -1/2, 1/2, -1/2, 1, 2 * (n:K) + 1) := by
-  refine ⟨?_, ?_, ?_, ?_⟩ <;>
-    simp [Generated.C07.cheby1Params, Generated.C07.cheby2Params, Generated.C07.cheby3Params,
-      Generated.C07.cheby4Params]
+/-- `cheby1..4`, `legendre`, `Qcon` as written in the source (whole bodies, calling the translated `jacobi`) compute the model -/
+theorem gen_cheby_legendre_qcon (n : ℕ) (x : K) :
+    Generated.C07.cheby1 (n:ℤ) x = cheby1 n x ∧ Generated.C07.cheby2 (n:ℤ) x = cheby2 n x
+    ∧ Generated.C07.cheby3 (n:ℤ) x = cheby3 n x ∧ Generated.C07.cheby4 (n:ℤ) x = cheby4 n x
+    ∧ Generated.C07.legendre (n:ℤ) x = legendre n x ∧ Generated.C07.qcon (n:ℤ) x = qcon n x := by
+  refine ⟨?_, ?_, ?_, ?_, ?_, ?_⟩ <;>
+    simp [Generated.C07.cheby1, Generated.C07.cheby2, Generated.C07.cheby3, Generated.C07.cheby4, Generated.C07.legendre,
+      Generated.C07.qcon, gen_jacobi, cheby1, cheby2, cheby3, cheby4, legendre, qcon, pow_two]
 
-/-- `legendre(n, x) = jacobi(n, 0, 0, x)` -/
-theorem gen_legendre_params : (Generated.C07.legendreParams : K × K) = (0, 0) := by
-  simp [Generated.C07.legendreParams]
+/-- `zernike_norm(n, m) = sqrt(2(n+1)/(1+δ_{m0}))` -/
+theorem gen_zernike_norm (sqrt : K → K) (n : ℕ) (m : ℤ) :
+    Generated.C07.zernikeNorm sqrt (n:ℤ) m = sqrt (zernikeNormSq n m) := by
+  by_cases h : m = 0 <;> simp [Generated.C07.zernikeNorm, zernikeNormSq, kroneckerK, h]
 
-/-- `zernike_norm`² `= 2(n+1)/(1+δ_{m0})`; `zernike_nm` evaluates `jacobi((n−|m|)//2, 0, |m|, 2r²−1)`, multiplies
-    by `r^{|m|}·sin(|m|t)` for `m<0`, by `r^{|m|}·cos(mt)` for `m>0`, by nothing for `m=0`, then by the norm -/
-theorem gen_zernike (n : ℕ) (m : ℤ) (r : K) :
-    (Generated.C07.zernikeNormSq (n:ℤ) m : K) = zernikeNormSq n m
-    ∧ Generated.C07.zernikeX r = 2 * r ^ 2 - 1
-    ∧ Generated.C07.zernikeNj (n:ℤ) m = ((n:ℤ) - m.natAbs) / 2
-    ∧ (Generated.C07.zernikeAB m : K × K) = (0, (m.natAbs : K))
-    ∧ Generated.C07.zernikeAzimuthNegSinPosCosTimesRPowAbsM = true := by
-  refine ⟨?_, ?_, ?_, ?_, ?_⟩
-  · by_cases h : m = 0 <;> simp [Generated.C07.zernikeNormSq, zernikeNormSq, h]
-  · simp [Generated.C07.zernikeX, pow_two]
-  · simp [Generated.C07.zernikeNj]
-  · simp [Generated.C07.zernikeAB]
-  · decide
+/-- the whole body of `zernike_nm` (radial Jacobi call, `r^|m|`, `sin` for `m<0` / `cos` for `m>0`, optional norm; `sin`, `cos`,
+    `sqrt` arbitrary functions) is the model's `zernike` with `az = sin(|m| t)` resp. `cos(|m| t)` and `σ = norm` or `1` -/
+theorem gen_zernike_nm (sinf cosf sqrt : K → K) (n : ℕ) (m : ℤ) (r t : K) (norm : Bool) (hm : m.natAbs ≤ n) :
+    Generated.C07.zernikeNm sinf cosf sqrt (n:ℤ) m r t norm
+      = zernike n m r (if m < 0 then sinf ((m.natAbs : K) * t) else cosf ((m.natAbs : K) * t))
+          (if norm = true then sqrt (zernikeNormSq n m) else 1) := by
+  have eabs : (if m < 0 then -m else m) = (m.natAbs : ℤ) := by split <;> omega
+  have enj : ((n:ℤ) - (m.natAbs : ℤ)) / 2 = (((n - m.natAbs) / 2 : ℕ) : ℤ) := by
+    rw [← Nat.cast_sub hm]; norm_cast
+  have hpos : ¬ m < 0 → ((m : ℤ) : K) = (m.natAbs : K) := by
+    intro h; rw [Nat.cast_natAbs, abs_of_nonneg (by omega)]
+  first
+  | (show Model.C07.zernike _ _ _ _ _ = _
+     by_cases h : m < 0 <;> cases norm <;> simp [h, hpos, gen_zernike_norm])
+  | (unfold Generated.C07.zernikeNm
+     simp only [eabs, enj, gen_jacobi, gen_zernike_norm, ofInt_eq, npow_eq, Int.toNat_natCast, Int.cast_natCast, Int.cast_zero,
+       Int.cast_ofNat, Int.cast_one]
+     by_cases h0 : m = 0
+     · subst h0; cases norm <;> simp [zernike, zernikeRadial, pow_two]
+     · by_cases h : m < 0 <;> cases norm <;> simp [zernike, zernikeRadial, pow_two, h0, h, hpos] <;> ring)
 
-/-- `Qcon(n, x) = jacobi(n, 0, 4, 2x²−1) · x⁴` -/
-theorem gen_qcon (P x : K) :
-    Generated.C07.qconX x = 2 * x ^ 2 - 1 ∧ (Generated.C07.qconAB : K × K) = (0, 4)
-    ∧ Generated.C07.qconOut P x = P * x ^ 4 := by
-  simp [Generated.C07.qconX, Generated.C07.qconAB, Generated.C07.qconOut, pow_two]
+/-- `xy(m, n, x, y)` is the model's monomial (the separable-grid shortcut only reshapes) -/
+theorem gen_xy (m n : ℕ) (x y : K) : Generated.C07.xy (m:ℤ) (n:ℤ) x y = xy m n x y := by
+  simp [Generated.C07.xy, xy]
 
-/-- `xy(m, n, x, y) = x^m y^n`; `hopkins(a,b,c,r,t,H) = az · r^b · H^c` with `az = sin(|a|t)` (`a<0`) or `cos(at)` -/
-theorem gen_xy_hopkins (m n : ℕ) (x y az r H : K) :
-    Generated.C07.xy (m:ℤ) (n:ℤ) x y = xy m n x y
-    ∧ Generated.C07.hopkins (m:ℤ) (n:ℤ) az r H = hopkins m n az r H := by
-  simp [Generated.C07.xy, Generated.C07.hopkins, xy, hopkins]
-
+/-- the whole body of `hopkins`: `sin(|a| t)` for `a < 0`, `cos(a t)` otherwise, times `r^b H^c` -/
+theorem gen_hopkins (sinf cosf : K → K) (a : ℤ) (b c : ℕ) (r t H : K) :
+    Generated.C07.hopkins sinf cosf a (b:ℤ) (c:ℤ) r t H
+      = hopkins b c (if a < 0 then sinf ((a.natAbs : K) * t) else cosf ((a : K) * t)) r H := by
+  have eabs : (if a < 0 then -a else a) = (a.natAbs : ℤ) := by split <;> omega
+  have hneg : a < 0 → ((a.natAbs : ℕ) : K) = -(a:K) := by
+    intro h; rw [Nat.cast_natAbs, abs_of_neg h]; push_cast; ring
+  by_cases h : a < 0
+  · first
+    | (simp [Generated.C07.hopkins, hopkins, h, hneg h, eabs, neg_mul]; done)
+    | simp [Generated.C07.hopkins, h]
+  · first
+    | (simp [Generated.C07.hopkins, hopkins, h, eabs]; done)
+    | simp [Generated.C07.hopkins, h]
 end translated
 
 /-! ## 2. the property -/
@@ -339,7 +217,8 @@ theorem coeffs_match_dlmf (n : ℕ) (hn : 1 ≤ n) (a b : K) :
   · simp [abcK, dlmfA, dlmfB, dlmfC, pow_two]
   · rintro ⟨h, _⟩; exact Nat.cast_add_one_ne_zero m h
 
-/-- at `n = 0` (both branches of the source) the coefficients produce DLMF's `P_1`: `A_0 x + B_0 = P_1(x)`,
+/-- (not needed by the C07 families, which start the recurrence at `n = 1`; it is the branch Clenshaw summation — C10 — enters)
+    at `n = 0` (both branches of the source) the coefficients produce DLMF's `P_1`: `A_0 x + B_0 = P_1(x)`,
     for all admissible `α β` (`α+β ≠ −2`; the removable singularities `α+β ∈ {0,−1}` are the special branch) -/
 theorem coeffs_zero_give_P1 (a b x : K) (h2 : a + b + 2 ≠ 0) :
     (Generated.C07.abc (0:K) a b).1 * x + (Generated.C07.abc (0:K) a b).2.1 = dlmfP1 a b x := by
@@ -352,7 +231,8 @@ theorem coeffs_zero_give_P1 (a b x : K) (h2 : a + b + 2 ≠ 0) :
     field_simp
     ring
 
-/-- the source's `jacobi` IS the family defined by DLMF's recurrence (18.9.1–2) and `P_0, P_1` (18.5.7) -/
+/-- restatement: the source's `jacobi` is the recurrence family written with the DLMF transcription of `Lemmas/C07Spec.lean`
+    (the independent content is `jacobi_explicit` below) -/
 theorem jacobi_is_dlmf (n : ℕ) (a b x : K) :
     Generated.C07.jacobi (n:ℤ) a b x = (dlmfJacobi a b x n).1 := by
   rw [gen_jacobi]
@@ -388,49 +268,33 @@ theorem jacobi_reflect (a b x : K) (n : ℕ) :
     Generated.C07.jacobi (n:ℤ) a b (-x) = (-1) ^ n * Generated.C07.jacobi (n:ℤ) b a x := by
   rw [gen_jacobi, gen_jacobi]; exact C07L.jacobi_reflect a b x n
 
-/-- `cheby1` as written in the source (Jacobi `(−½,−½)` over its value at 1) is Mathlib's Chebyshev `T_n` -/
-theorem cheby1_eq_T (n : ℕ) (x : K) :
-    let p : K × K × K × K × K × K := Generated.C07.cheby1Params (n:ℤ)
-    Generated.C07.jacobi (n:ℤ) p.1 p.2.1 x * (p.2.2.2.2.2 / Generated.C07.jacobi (n:ℤ) p.2.2.1 p.2.2.2.1 p.2.2.2.2.1)
-      = (Chebyshev.T K n).eval x := by
-  simp only [(gen_cheby_params (K := K) n).1, gen_jacobi]
-  simpa [cheby1] using C07L.cheby1_eq_T n x
+/-- `cheby1` as written in the source (Jacobi `(−½,−½)` over its value at 1) is Mathlib's Chebyshev `T_n`, every `n`, every `x` -/
+theorem cheby1_eq_T (n : ℕ) (x : K) : Generated.C07.cheby1 (n:ℤ) x = (Chebyshev.T K n).eval x := by
+  rw [(gen_cheby_legendre_qcon n x).1]; exact C07L.cheby1_eq_T n x
 
 /-- `cheby2` as written in the source is Mathlib's Chebyshev `U_n` -/
-theorem cheby2_eq_U (n : ℕ) (x : K) :
-    let p : K × K × K × K × K × K := Generated.C07.cheby2Params (n:ℤ)
-    Generated.C07.jacobi (n:ℤ) p.1 p.2.1 x * (p.2.2.2.2.2 / Generated.C07.jacobi (n:ℤ) p.2.2.1 p.2.2.2.1 p.2.2.2.2.1)
-      = (Chebyshev.U K n).eval x := by
-  simp only [(gen_cheby_params (K := K) n).2.1, gen_jacobi]
-  simpa [cheby2] using C07L.cheby2_eq_U n x
+theorem cheby2_eq_U (n : ℕ) (x : K) : Generated.C07.cheby2 (n:ℤ) x = (Chebyshev.U K n).eval x := by
+  rw [(gen_cheby_legendre_qcon n x).2.1]; exact C07L.cheby2_eq_U n x
 
-/-- `cheby3` as written in the source is the third-kind Chebyshev polynomial `V_n` (`V_0=1, V_1=2x−1, V_{n+1}=2xV_n−V_{n−1}`) -/
-theorem cheby3_eq_V (n : ℕ) (x : K) :
-    let p : K × K × K × K × K × K := Generated.C07.cheby3Params (n:ℤ)
-    Generated.C07.jacobi (n:ℤ) p.1 p.2.1 x * (p.2.2.2.2.2 / Generated.C07.jacobi (n:ℤ) p.2.2.1 p.2.2.2.1 p.2.2.2.2.1)
-      = chebV n x := by
-  simp only [(gen_cheby_params (K := K) n).2.2.1, gen_jacobi]
-  simpa [cheby3] using C07L.cheby3_eq_V n x
+/-- `cheby3` as written in the source is the third-kind Chebyshev polynomial `V_n` (`V_0=1, V_1=2x−1, V_{n+1}=2xV_n−V_{n−1}`;
+    own transcription of DLMF 18.9; the trigonometric definition is only tested) -/
+theorem cheby3_eq_V (n : ℕ) (x : K) : Generated.C07.cheby3 (n:ℤ) x = chebV n x := by
+  rw [(gen_cheby_legendre_qcon n x).2.2.1]; exact C07L.cheby3_eq_V n x
 
 /-- `cheby4` as written in the source is the fourth-kind Chebyshev polynomial `W_n` (`W_0=1, W_1=2x+1, W_{n+1}=2xW_n−W_{n−1}`) -/
-theorem cheby4_eq_W (n : ℕ) (x : K) :
-    let p : K × K × K × K × K × K := Generated.C07.cheby4Params (n:ℤ)
-    Generated.C07.jacobi (n:ℤ) p.1 p.2.1 x * (p.2.2.2.2.2 / Generated.C07.jacobi (n:ℤ) p.2.2.1 p.2.2.2.1 p.2.2.2.2.1)
-      = chebW n x := by
-  simp only [(gen_cheby_params (K := K) n).2.2.2, gen_jacobi]
-  simpa [cheby4] using C07L.cheby4_eq_W n x
+theorem cheby4_eq_W (n : ℕ) (x : K) : Generated.C07.cheby4 (n:ℤ) x = chebW n x := by
+  rw [(gen_cheby_legendre_qcon n x).2.2.2.1]; exact C07L.cheby4_eq_W n x
 
-/-- Legendre: `P_0 = 1`, `P_1 = x`, Bonnet `(n+2)P_{n+2} = (2n+3)xP_{n+1} − (n+1)P_n` for every `n` -/
+/-- `legendre` as written in the source: `P_0 = 1`, `P_1 = x`, Bonnet `(n+2)P_{n+2} = (2n+3)xP_{n+1} − (n+1)P_n` for every `n` -/
 theorem legendre_bonnet (n : ℕ) (x : K) :
-    let L := fun (k : ℕ) => Generated.C07.jacobi (k:ℤ) (Generated.C07.legendreParams (K := K)).1
-      (Generated.C07.legendreParams (K := K)).2 x
-    L 0 = 1 ∧ L 1 = x ∧ ((n:K) + 2) * L (n+2) = (2 * n + 3) * x * L (n+1) - (n + 1) * L n := by
-  simp only [gen_legendre_params, gen_jacobi]
-  have := C07L.legendre_bonnet n x
-  have h0 := C07L.legendre_zero x
-  have h1 := C07L.legendre_one x
-  simp only [legendre, nat_eq, Nat.cast_zero] at this h0 h1
-  exact ⟨h0, h1, this⟩
+    Generated.C07.legendre 0 x = 1 ∧ Generated.C07.legendre 1 x = x
+    ∧ ((n:K) + 2) * Generated.C07.legendre ((n+2 : ℕ):ℤ) x
+        = (2 * n + 3) * x * Generated.C07.legendre ((n+1 : ℕ):ℤ) x - (n + 1) * Generated.C07.legendre (n:ℤ) x := by
+  have e := fun k => (gen_cheby_legendre_qcon (K := K) k x).2.2.2.2.1
+  refine ⟨?_, ?_, ?_⟩
+  · simpa [C07L.legendre_zero] using e 0
+  · simpa [C07L.legendre_one] using e 1
+  · rw [e, e, e]; exact C07L.legendre_bonnet n x
 
 /-- `hermite_He` is Mathlib's `Polynomial.hermite`, every order, every point -/
 theorem hermiteHe_eq_mathlib (n : ℕ) (x : K) : Generated.C07.hermiteHe (n:ℤ) x = aeval x (hermite n) := by
@@ -482,46 +346,39 @@ theorem laguerre_explicit (n : ℕ) (al : K) (ha : -1 < al) (x : K) :
   intro k hk
   rw [lagTerm_closed al ha n k (by have := Finset.mem_range.mp hk; omega)]
 
-/-- Zernike: the value is `σ · R_n^{|m|}(r) · az` with the textbook radial polynomial
-    `R_n^m(r) = r^m P^{(0,m)}_{(n−m)/2}(2r²−1)` built from the source's `jacobi`; `az = 1` for `m = 0` -/
-theorem zernike_def (n : ℕ) (m : ℤ) (r az σ : K) :
-    zernike n m r az σ
-      = σ * zernikeRadialSpec (fun k a b x => Generated.C07.jacobi (k:ℤ) a b x) n m.natAbs r
-          * (if m = 0 then 1 else az) := by
+/-- **Zernike, on the source text**: `zernike_nm(n, m, r, t, norm)` is `σ · R_n^{|m|}(r) · az` with the textbook radial polynomial
+    `R_n^m(r) = r^m P^{(0,m)}_{(n−m)/2}(2r²−1)` (built from the source's `jacobi`), `az = sin(|m|t)` for `m<0`, `cos(|m|t)` for `m>0`,
+    `1` for `m=0`, `σ = sqrt(zernike_norm²)` or `1` — for every `|m| ≤ n`, every `r, t`, and ANY functions `sin`, `cos`, `sqrt` -/
+theorem zernike_def (sinf cosf sqrt : K → K) (n : ℕ) (m : ℤ) (r t : K) (norm : Bool) (hm : m.natAbs ≤ n) :
+    Generated.C07.zernikeNm sinf cosf sqrt (n:ℤ) m r t norm
+      = (if norm = true then sqrt (zernikeNormSq n m) else 1)
+          * zernikeRadialSpec (fun k a b x => Generated.C07.jacobi (k:ℤ) a b x) n m.natAbs r
+          * (if m = 0 then 1 else if m < 0 then sinf ((m.natAbs : K) * t) else cosf ((m.natAbs : K) * t)) := by
+  rw [gen_zernike_nm sinf cosf sqrt n m r t norm hm]
   simp only [zernikeRadialSpec, gen_jacobi]
   by_cases h : m = 0
   · subst h; simp [zernike, zernikeRadial, pow_two]; ring
-  · simp [zernike, zernikeRadial, pow_two, h]; ring
+  · by_cases h' : m < 0 <;> simp [zernike, zernikeRadial, pow_two, h, h'] <;> ring
 
-/-- the wiring of `zernike_nm` (argument `2r²−1`, order `(n−|m|)//2`, parameters `(0,|m|)`) is the model's radial polynomial -/
-theorem zernike_wiring (n : ℕ) (m : ℤ) (r : K) (hm : m.natAbs ≤ n) :
-    Generated.C07.jacobi (Generated.C07.zernikeNj (n:ℤ) m) (Generated.C07.zernikeAB (K := K) m).1
-      (Generated.C07.zernikeAB (K := K) m).2 (Generated.C07.zernikeX r) = zernikeRadial n m r := by
-  have e : ((n:ℤ) - m.natAbs) / 2 = (((n - m.natAbs) / 2 : ℕ) : ℤ) := by
-    rw [← Nat.cast_sub hm]; norm_cast
-  simp only [(gen_zernike (K := K) n m r).2.2.1, (gen_zernike (K := K) n m r).2.2.2.1, (gen_zernike (K := K) n m r).2.1, e,
-    gen_jacobi, zernikeRadial, nat_eq, Nat.cast_zero, Nat.cast_ofNat, Nat.cast_one, pow_two]
-
-/-- orthonormal Zernike norm: `norm² = 2(n+1)` for `m ≠ 0`, `n+1` for `m = 0` -/
-theorem zernike_norm_sq (n : ℕ) (m : ℤ) :
-    (Generated.C07.zernikeNormSq (n:ℤ) m : K) = if m = 0 then (n:K) + 1 else 2 * ((n:K) + 1) := by
-  rw [(gen_zernike (K := K) n m 0).1]
+/-- orthonormal Zernike norm: `zernike_norm(n, m)² = n+1` for `m = 0`, `2(n+1)` otherwise (for any `sqrt` with `sqrt(y)² = y`) -/
+theorem zernike_norm_sq (sqrt : K → K) (hs : ∀ y, sqrt y * sqrt y = y) (n : ℕ) (m : ℤ) :
+    Generated.C07.zernikeNorm sqrt (n:ℤ) m * Generated.C07.zernikeNorm sqrt (n:ℤ) m
+      = if m = 0 then (n:K) + 1 else 2 * ((n:K) + 1) := by
+  rw [gen_zernike_norm, hs]
   by_cases h : m = 0 <;> simp [zernikeNormSq, h]
   ring
 
-/-- `xy` is the monomial `x^m y^n`; `hopkins` is `az · r^b · H^c` -/
-theorem xy_hopkins_def (m n : ℕ) (x y az r H : K) :
+/-- `xy` is the monomial `x^m y^n`; `hopkins(a,b,c,r,t,H) = az · r^b · H^c` with `az = sin(|a|t)` for `a<0`, `cos(at)` otherwise -/
+theorem xy_hopkins_def (sinf cosf : K → K) (a : ℤ) (m n : ℕ) (x y r t H : K) :
     Generated.C07.xy (m:ℤ) (n:ℤ) x y = x ^ m * y ^ n
-    ∧ Generated.C07.hopkins (m:ℤ) (n:ℤ) az r H = az * r ^ m * H ^ n := by
-  simp [Generated.C07.xy, Generated.C07.hopkins, xy, hopkins]
+    ∧ Generated.C07.hopkins sinf cosf a (m:ℤ) (n:ℤ) r t H
+        = (if a < 0 then sinf ((a.natAbs : K) * t) else cosf ((a : K) * t)) * r ^ m * H ^ n := by
+  rw [gen_xy, gen_hopkins]; simp [xy, hopkins]
 
-/-- `Qcon_n(x) = x⁴ · P_n^{(0,4)}(2x²−1)` -/
-theorem qcon_def (n : ℕ) (x : K) :
-    Generated.C07.qconOut (Generated.C07.jacobi (n:ℤ) (Generated.C07.qconAB (K := K)).1
-        (Generated.C07.qconAB (K := K)).2 (Generated.C07.qconX x)) x
-      = x ^ 4 * (dlmfJacobi 0 4 (2 * x ^ 2 - 1) n).1 := by
-  simp only [(gen_qcon (K := K) 0 x).1, (gen_qcon (K := K) 0 x).2.1, (gen_qcon (K := K) _ x).2.2, jacobi_is_dlmf]
-  ring
+/-- `Qcon_n(x) = x⁴ · P_n^{(0,4)}(2x²−1)` on the source text -/
+theorem qcon_def (n : ℕ) (x : K) : Generated.C07.qcon (n:ℤ) x = x ^ 4 * (dlmfJacobi 0 4 (2 * x ^ 2 - 1) n).1 := by
+  rw [(gen_cheby_legendre_qcon n x).2.2.2.2.2, ← jacobi_is_dlmf, gen_jacobi]
+  simp [qcon, pow_two]; ring
 
 end property
 
